@@ -2,7 +2,8 @@
 //! re-parse of the produced text.
 //!
 //! case fields:
-//!   `tree <dump>`    document children in the dump syntax of engine `xmltb` (`-` = no children);
+//!   `tree <dump> [flag]`  document children in the dump syntax of engine `xmltb` (`-` = no children; the
+//!                    optional flag is for the oracle only);
 //!                    the tree is built node by node (any QualName, also ones no parser produces)
 //!   `src <chunks>`   XML text parsed first by the real parser (no Lean model for this mode)
 //! output: `ser=<text>;err=<codes>;tree=<dump>` (err/tree = re-parse of the serialized text);
@@ -180,7 +181,7 @@ fn ser_and_reparse(doc: Handle) -> String {
 
 pub fn run(fields: &[&str]) -> String {
     match fields {
-        ["tree", dump] => match build(dump) {
+        ["tree", dump] | ["tree", dump, _] => match build(dump) {
             Some(doc) => ser_and_reparse(doc),
             None => "bad-case".into(),
         },
